@@ -228,6 +228,7 @@ type vfC09Ledger struct {
 	initial       map[string]bool      // configured anchors (by material), ever
 	pendingSince  map[string]time.Time // first accepted refresh (by a non-revoked trusted key) that listed the key, reset on absence
 	eligible      map[string]bool      // completed its 30-day hold-down in accepted refreshes
+	durable       map[string]bool      // ... and a trust state written since then has reached the disk: the promotion survives a restart
 	revokedAt     map[string]time.Time // self-signed revocation seen in a refresh whose persistence got at least one record out
 	lastPresent   map[string]time.Time // last accepted refresh that listed the (un-revoked) key, or the time it became trusted
 	missingFrom   map[string]time.Time // first accepted refresh since then that did not
@@ -238,7 +239,17 @@ type vfC09Ledger struct {
 	justRestarted bool                 // no refresh yet since the process (re)started
 }
 
-func (l *vfC09Ledger) restarted() { l.justRestarted = true }
+// restarted: a new process reads the trust state from disk. A hold-down the previous process completed only in memory
+// (its state write failed, or it died before writing) is completed again by the next authenticated refresh - the
+// pending date is on disk - but until then the key's standing is whatever configuration gives it.
+func (l *vfC09Ledger) restarted() {
+	l.justRestarted = true
+	for m := range l.eligible {
+		if !l.durable[m] {
+			delete(l.eligible, m)
+		}
+	}
+}
 
 // trusted says whether a signature by the key can authenticate a refresh: the key is in the running process's
 // configuration or in the trust state that reached the disk, and it was not revoked.
@@ -310,7 +321,7 @@ func vfC09Run(t *testing.T, c *vfC09Case) (violation string, trace []string, cla
 			}
 			return cfg
 		}
-		led := &vfC09Ledger{initial: map[string]bool{}, pendingSince: map[string]time.Time{}, eligible: map[string]bool{}, revokedAt: map[string]time.Time{}, lastPresent: map[string]time.Time{}, missingFrom: map[string]time.Time{}, configured: map[string]bool{}, persisted: map[string]bool{}}
+		led := &vfC09Ledger{initial: map[string]bool{}, pendingSince: map[string]time.Time{}, eligible: map[string]bool{}, durable: map[string]bool{}, revokedAt: map[string]time.Time{}, lastPresent: map[string]time.Time{}, missingFrom: map[string]time.Time{}, configured: map[string]bool{}, persisted: map[string]bool{}}
 		led.configured[vfC09Material(keys[0].RR)] = true
 		configured := []int{0}
 		led.initial[vfC09Material(keys[0].RR)] = true
@@ -536,6 +547,7 @@ func vfC09Run(t *testing.T, c *vfC09Case) (violation string, trace []string, cla
 						if led.eligible[m] && now.Sub(led.missingFrom[m]) > 90*vfC09Day {
 							// aged out: a later reappearance starts a new hold-down
 							led.eligible[m] = false
+							delete(led.durable, m)
 							delete(led.pendingSince, m)
 						}
 					}
@@ -556,6 +568,11 @@ func vfC09Run(t *testing.T, c *vfC09Case) (violation string, trace []string, cla
 				}
 				for _, h := range hookLog {
 					if h == "gobwrite.after-rename:"+stateFile {
+						for m, ok := range led.eligible {
+							if ok {
+								led.durable[m] = true
+							}
+						}
 						led.uncertain = true // a new trust state is on disk; the ledger did not see what the run would have published
 						for m := range led.configured {
 							led.persisted[m] = true
@@ -661,7 +678,12 @@ func vfC09Run(t *testing.T, c *vfC09Case) (violation string, trace []string, cla
 					fail("step %d: the revocation store is unreadable, yet validation keeps a trust set %s instead of failing closed", si, describe())
 				}
 			}
-			led.justRestarted = false
+			// the swap of "what NewResolver loaded" for "what the state files say" happens in the first refresh that
+			// publishes: any refresh when the process started with anchors, but only an authenticated one when it started
+			// with none (an empty live set reads as fail-closed mode to sdns, which then publishes nothing before the fetch)
+			if authFull || authRevOnly || len(before) > 0 {
+				led.justRestarted = false
+			}
 			if authFull || authRevOnly {
 				// the run changed the in-memory trust state; unless the state file write below went through, the next run
 				// re-reads an older state and may publish less (never more) than this one did
@@ -669,6 +691,11 @@ func vfC09Run(t *testing.T, c *vfC09Case) (violation string, trace []string, cla
 			}
 			for _, h := range hookLog {
 				if h == "gobwrite.after-rename:"+stateFile {
+					for m, ok := range led.eligible {
+						if ok {
+							led.durable[m] = true
+						}
+					}
 					led.persisted = map[string]bool{}
 					for m := range after {
 						led.persisted[m] = true
